@@ -191,7 +191,7 @@ def list_subqueries(segment: BaseSegment) -> list[SubQueryTuple]:
                     extract_identifier(as_segment) if as_segment else None,
                 )
             ]
-    elif segment.type == "where_clause":
+    elif segment.type in ["where_clause", "having_clause"]:
         bracketeds = []
         if expression := segment.get_child("expression"):
             bracketeds = expression.get_children("bracketed")
